@@ -46,7 +46,7 @@ func (r *c20Reply) coq(hn func(string) string) string {
 	case "RDischarge", "RError":
 		return r.Kind
 	case "RPoll":
-		return coqw.App("RPoll", coqw.Str(hn(r.Host)), coqw.Nat(r.N))
+		return coqw.App("RPoll", coqw.Str(hn(r.Host)), coqw.Nat(r.N), r.Next.coq(hn))
 	case "RRedirect":
 		return coqw.App("RRedirect", coqw.Str(hn(r.Host)), r.Next.coq(hn))
 	}
@@ -167,7 +167,7 @@ func (w *c20World) serve(r *http.Request, id string, fl *c20Flow) *http.Response
 				fl.rest.N--
 				return jsonResp(r, 202, map[string]string{"error": "not ready"})
 			}
-			fl.rest = &c20Reply{Kind: "RDischarge"}
+			fl.rest = fl.rest.Next
 			return w.serve(r, id, fl)
 		}
 		fl.polls = -1
@@ -226,7 +226,12 @@ func genC20(c *ctx) {
 			case k < 3 || depth > 2:
 				return &c20Reply{Kind: "RDischarge"}
 			case k < 5:
-				return &c20Reply{Kind: "RPoll", Host: rng.Pick(r, c20Authorities), N: r.Intn(3)}
+				// after the "not ready" answers the poll URL answers with the discharge, an error or a redirect
+				next := &c20Reply{Kind: "RDischarge"}
+				if r.P(1, 3) {
+					next = &c20Reply{Kind: "RRedirect", Host: rng.Pick(r, c20Authorities), Next: &c20Reply{Kind: "RDischarge"}}
+				}
+				return &c20Reply{Kind: "RPoll", Host: rng.Pick(r, c20Authorities), N: r.Intn(3), Next: next}
 			case k < 7:
 				return &c20Reply{Kind: "RRedirect", Host: rng.Pick(r, c20Authorities), Next: mkReply(depth + 1)}
 			}
